@@ -80,6 +80,156 @@ def round_case(b, remote):
     return f"(CRound {b.term()} {base} {I.coq_impl_out(p, outcome)})", outcome
 
 
+REMOTE_BASES = ["http://docs.example.org/a", "https://h.example/x/y/", "http://127.0.0.1:8000", "http://h.example/",
+                "https://example.org/docs/v1.2/api"]
+LINK_KEYS = ["module", "submodule", "extmodule", "type", "exttype", "procedure", "extprocedure", "subroutine",
+             "extsubroutine", "function", "extfunction", "proc", "extproc", "file", "interface", "extinterface",
+             "absinterface", "extabsinterface", "program", "block", "namelist", "Module", "EXTTYPE", "bogus"]
+SUB_KEYS = ["variable", "type", "constructor", "interface", "absinterface", "subroutine", "function", "final",
+            "bound", "modproc", "common", "Variable", "nonsense"]
+COLL_NAMES = list(I.COLLS)
+
+
+def names_in(j, acc):
+    if isinstance(j, dict):
+        if isinstance(j.get("name"), str):
+            acc.add(j["name"])
+        for v in j.values():
+            names_in(v, acc)
+    elif isinstance(j, list):
+        for v in j:
+            names_in(v, acc)
+    return acc
+
+
+def coq_blocal(local):
+    return "[" + "; ".join(f"({I.COLLS[c]}, [{'; '.join(cs(n) for n in ns)}])" for c, ns in local.items()) + "]"
+
+
+def gen_queries(rng, p, names, local):
+    names = sorted(names) + ["nosuch"] + [n for ns in local.values() for n in ns]
+    qs = []
+    for _ in range(rng.choice([4, 8, 12])):
+        n = rng.choice(names)
+        n = rng.choice([n, n, n.upper(), n.lower()])
+        r = rng.random()
+        if r < 0.25:
+            qs.append((f"(QUse {cs(n)})", I.q_use(p, n)))
+        elif r < 0.8:
+            ent = rng.choice(LINK_KEYS) if rng.random() < 0.4 else None
+            child = None
+            if rng.random() < 0.5:
+                child = (rng.choice(names), rng.choice(SUB_KEYS) if rng.random() < 0.4 else None)
+            ct = "None" if child is None else f"(Some ({cs(child[0])}, {copt(child[1], cs)}))"
+            qs.append((f"(QFind {cs(n)} {copt(ent, cs)} {ct})", I.q_find(p, n, ent, child)))
+        else:
+            m = rng.choice(names)
+            w = rng.choice(["pub_procs", "pub_absints", "pub_types", "pub_vars"])
+            qs.append((f"(QUsed {cs(m)} {cs(w)} {cs(n)})", I.q_used(p, m, w, n)))
+    return qs
+
+
+def load_case(rng, descriptions):
+    """one CLoad case: a source in some state, loaded by FORD's load_external_modules into a stub project"""
+    desc = rng.choice(descriptions) if (descriptions and rng.random() < 0.5) else G.small_description(rng)
+    mutated = rng.random() < 0.7
+    if mutated:
+        for _ in range(rng.choice([1, 1, 2])):
+            desc = G.mutate_description(rng, desc)
+    text = json.dumps(desc)
+    if not core.is_ascii(text):
+        return None
+    kind = rng.choice(["local"] * 6 + ["remote"] * 3 + ["missing", "undecodable", "badjson", "abs", "urlerror",
+                                                         "remote-undecodable", "remote-badjson"])
+    bad = rng.choice(['{"modules": [', "", "{'a': 1}", "[1, 2,]", "nul"])
+    with F.Work() as w:
+        d = w.root / "ext" / "doc"
+        d.mkdir(parents=True)
+        dirterm = cs(str(d.resolve()))
+        payload = None
+        value = "ext/doc"
+        if kind == "local":
+            (d / "modules.json").write_text(text)
+            src = f"(SLocal {dirterm} (LJson {I.coq_json(desc)}))"
+        elif kind == "missing":
+            src = f"(SLocal {dirterm} LMissing)"
+        elif kind == "undecodable":
+            (d / "modules.json").write_bytes(b"\xff\xfe" + text.encode())
+            src = f"(SLocal {dirterm} LUndecodable)"
+        elif kind == "badjson":
+            (d / "modules.json").write_text(bad)
+            src = f"(SLocal {dirterm} LBadJson)"
+        elif kind == "abs":
+            (d / "modules.json").write_text(text)
+            value = str(d.resolve())
+            src = f"(SLocalAbs {cs(value)})"
+        else:
+            value = rng.choice(REMOTE_BASES)
+            if kind == "remote":
+                payload, f = text.encode(), f"(RJson {I.coq_json(desc)})"
+            elif kind == "urlerror":
+                payload = rng.choice([urllib.error.URLError("refused"),
+                                      urllib.error.HTTPError(value, 404, "Not Found", {}, None)])
+                f = "RUrlError"
+            elif kind == "remote-undecodable":
+                payload, f = b"\xff\xfe" + text.encode(), "RUndecodable"
+            else:
+                payload, f = bad.encode(), "RBadJson"
+            src = f"(SRemote {cs(value)} {f})"
+        p, outcome = I.load(value, w.root, payload)
+        local, qs = {}, []
+        if outcome == "ok":
+            names = names_in(desc, set())
+            pool = sorted(names) + ["own_a", "own_b"]
+            for c in COLL_NAMES:
+                if rng.random() < 0.5:
+                    local[c] = [rng.choice([n, n.upper()]) for n in rng.sample(pool, k=min(len(pool), rng.choice([1, 2, 3])))]
+            I.install_locals(p, local)
+            qs = gen_queries(rng, p, names, local)
+        term = (f"(CLoad {src} {'true' if mutated else 'false'} {I.coq_impl_out(p, outcome)} {coq_blocal(local)} "
+                f"[{'; '.join(f'({q}, {a})' for q, a in qs)}])")
+    return term, {"what": "load", "kind": kind, "mutated": mutated, "external": value, "outcome": outcome,
+                  "description": desc if kind in ("local", "remote", "abs") else None,
+                  "queries": [q for q, _ in qs], "answers": [a for _, a in qs], "local": local}
+
+
+SEGS = ["proc", "type", "module", "interface", "init.html", "init~2.html", "shape_t.html#variable-side",
+        "operator(.dot.).html", "a.b", "x", "None", "t.html#boundprocedure-get~3", "..", "."]
+
+
+def join_cases(rng, n):
+    """the two re-basing primitives on their own: str(Path(base) / rel) and urljoin(base, rel)"""
+    import pathlib as pl
+    from urllib.parse import urljoin
+    out = []
+    for _ in range(n):
+        k = rng.choice([1, 2, 2, 2, 3])
+        segs = [rng.choice(SEGS) for _ in range(k)]
+        rel = "/".join(segs)
+        if rng.random() < 0.15:
+            rel = "/" + rel
+        if rng.random() < 0.1:
+            rel = rel.replace("/", "//", 1) if not rel.startswith("/") else rel
+        if rng.random() < 0.1:
+            rel += "/"
+        if rng.random() < 0.5:
+            base = rng.choice(["/tmp/a/doc", "/srv/docs", "/x"])
+            if rel.startswith("//"):
+                continue
+            impl = str(pl.Path(base) / rel)
+            term = f"(CJoin (BLocal {cs(base)}) {cs(rel)} {cs(impl)})"
+        else:
+            base = rng.choice(REMOTE_BASES)
+            base = base if base.endswith("/") else base + "/"
+            # scope of url_join: no dot segments, no "//", no scheme-like first segment
+            if any(sg in (".", "..") for sg in rel.split("/")) or "//" in rel or rel == "":
+                continue
+            impl = urljoin(base, rel)
+            term = f"(CJoin (BRemote {cs(base)}) {cs(rel)} {cs(impl)})"
+        out.append((term, {"what": "join", "base": base, "rel": rel, "impl": impl}))
+    return out
+
+
 def classify(chk, code, payload, key):
     """common verdict handling: returns True when the case is fine"""
     if code & 1 and not code & 2:
@@ -119,11 +269,22 @@ def run(chk):
             continue
         cases.append(export_case(b))
         meta.append({"what": "export", "files": b.files, "display": b.A["display"]})
-        rc, outcome = round_case(b, None if rng.random() < 0.5 else rng.choice(
-            ["http://docs.example.org/a", "https://h.example/x/y/", "http://127.0.0.1:8000"]))
+        rc, outcome = round_case(b, None if rng.random() < 0.5 else rng.choice(REMOTE_BASES))
         cases.append(rc)
         meta.append({"what": "round", "files": b.files, "outcome": outcome})
-    res = chk.coq_judge(IMPORTS, "case", "judge", cases, shard=4)
+    descriptions = [b.modules_json for b in built if b.modules_json is not None]
+    for k in range(150 if quick else 3000):
+        lc = load_case(rng, descriptions)
+        if lc is None:
+            continue
+        cases.append(lc[0])
+        meta.append(lc[1])
+        chk.count(("load", lc[0]), nontrivial=True, sample=None)
+    for term, m in join_cases(rng, 150 if quick else 3000):
+        cases.append(term)
+        meta.append(m)
+        chk.count(("join", m["base"], m["rel"]), nontrivial=True)
+    res = chk.coq_judge(IMPORTS, "case", "judge", cases, shard=12)
     if res is not None:
         chk.traces += len(cases)
         for idx, code in sorted(res.items()):
